@@ -334,12 +334,28 @@ def find_children_for_parent(var_collector: Collector, parent_node: ParentNode, 
         return process_list_breadth_first(var_collector, parent_node, value)
     elif isinstance(value, Exception):
         return process_list_breadth_first(var_collector, parent_node, value.args)
-    elif hasattr(value, '__dict__'):
-        # not all objects have a __dict__ (e.g. slots, frames, builtin types), these have no children we can collect
-        return process_dict_breadth_first(parent_node, variable_type.__name__, value.__dict__, correct_names)
     else:
+        attributes = instance_attributes(value)
+        if attributes is not None:
+            return process_dict_breadth_first(parent_node, variable_type.__name__, attributes, correct_names)
         logging.debug("Unknown type processed %s", variable_type)
         return []
+
+
+def instance_attributes(value):
+    """
+    Get the attribute dictionary of a value, without failing.
+
+    Not all objects have a __dict__ (e.g. slots, frames, builtin types), these have no children we can collect. The
+    lookup can also run code of the value (__getattr__), which can fail with any error.
+
+    :param value: the value to get the attributes of
+    :return: the attribute dictionary, or None if there is none (or it cannot be read)
+    """
+    try:
+        return value.__dict__
+    except Exception:
+        return None
 
 
 def process_dict_breadth_first(parent_node, type_name, value, func=lambda x, y: y) -> List[Node]:
